@@ -12,7 +12,7 @@ from .. import core, synth
 
 ID = "C19"
 LEVEL = "fault_enumeration"
-RULE = ("each case is one fresh interpreter: import of the shipped modules under a random module order with every "
+RULE = ("each case is one fresh interpreter (every fourth one started with python -O): import of the shipped modules under a random module order with every "
         "declaration replayed as an assertion (name -> object, object reports name, symbol resolves), then a random "
         "history of definition calls (define / unit / derive / alias / scale / Prefix(name=) / Dimension.derive / "
         "Dimension(name=) / equals) mixing anonymous-first and fresh construction and symbols that were already resolved "
@@ -32,7 +32,7 @@ WORKER = os.path.join(os.path.dirname(os.path.dirname(os.path.abspath(__file__))
 
 def run_worker(spec, timeout=300):
     try:
-        p = subprocess.run([sys.executable, "-B", WORKER, json.dumps(spec)], capture_output=True, text=True, timeout=timeout, env=synth.child_env())
+        p = subprocess.run([sys.executable, "-B"] + (["-O"] if spec.get("optimize") else []) + [WORKER, json.dumps(spec)], capture_output=True, text=True, timeout=timeout, env=synth.child_env())
     except subprocess.TimeoutExpired:
         return {"inconclusive": "worker timed out"}
     if p.returncode != 0:
@@ -52,7 +52,7 @@ def run(ctx):
         order = list(B.ALL_MODULES)
         rng.shuffle(order)
         specs.append({"seed": ctx.seed * 100003 + i, "steps": steps, "modules": "all", "order": order if i % 2 else None,
-                      "failpoints": True, "allow_dimension_define": (i % 4 == 3), "lookups_between_imports": (i % 3 != 0),
+                      "failpoints": True, "allow_dimension_define": (i % 4 == 3), "lookups_between_imports": (i % 3 != 0), "optimize": (i % 4 == 2),
                       "force_failpoint_site": "Dimension.scale->conversions.translate" if i == 0 else None})
     with ThreadPoolExecutor(max_workers=14) as ex:
         results = list(ex.map(run_worker, specs))
@@ -61,6 +61,8 @@ def run(ctx):
         ctx.count("histories")
         if spec["order"]:
             ctx.count("import_orders")
+        if spec.get("optimize"):
+            ctx.count("histories_under_python_O")
         if "inconclusive" in res or res.get("fatal"):
             ctx.not_reached(f"worker: {res.get('inconclusive') or res.get('fatal')}")
             continue
